@@ -9,7 +9,7 @@ ID = "C16"
 LEVEL = "proof"
 PROPERTIES_MODULE = "Properties.C16"
 COQ_TARGETS = ["Properties/C16.vo", "Model/Exp01.vo"]
-THEOREMS = ["C16_accept_iff", "C16_c2_is_half", "C16_mixture", "C16_cdf", "C16_f_range"]
+THEOREMS = ["C16_accept_iff", "C16_c2_is_half", "C16_mixture", "C16_cdf", "C16_f_range", "C16_returned_values_in_unit_interval"]
 AXIOMS_ALLOWED = ["ClassicalDedekindReals.sig_forall_dec", "ClassicalDedekindReals.sig_not_dec",
                   "FunctionalExtensionality.functional_extensionality_dep", "Classical_Prop.classic",
                   "ClassicalEpsilon.constructive_indefinite_description"]
@@ -49,7 +49,7 @@ def fl(x):
 
 
 def correspond(run):
-    n = 60 if run.tier == "quick" else 600
+    n = 60 if run.depth == "quick" else 600
     rc, js, out, err = vlib.harness(["exp01-cases", "--seed", run.seed, "--n", n], timeout=900)
     if rc != 0 or js is None:
         run.oblige("correspondence:exp01-cases", "correspondence", False, (out[-300:] + err[-300:]))
